@@ -2422,6 +2422,16 @@ func isArray(t *itype) bool {
 	return k == reflect.Array || k == reflect.Slice
 }
 
+// isPtrToArray returns true if t is a pointer to an array, which is
+// implicitly dereferenced by index and slice expressions.
+func isPtrToArray(t *itype) bool {
+	if t.cat == nilT {
+		return false
+	}
+	rt := t.TypeOf()
+	return rt.Kind() == reflect.Ptr && rt.Elem().Kind() == reflect.Array
+}
+
 func isInterfaceSrc(t *itype) bool {
 	return t.cat == interfaceT || (t.cat == linkedT && isInterfaceSrc(t.val))
 }
